@@ -579,6 +579,10 @@ func jobsFor(prop, tier string) []*Job {
 				add("wf/pubwire", "ZZ_C17_pubwire", []string{"pubwire"}, tl, al)
 			}
 		}
+		// very long topics (a length that wraps in 16 bits must still count as non-empty)
+		for _, tl := range []int{65535, 65536, 131072} {
+			add("wf/pub", "ZZ_C17_pub", []string{"pub"}, tl, 0)
+		}
 		for nf := 0; nf <= 2; nf++ {
 			for fl := 0; fl <= 1; fl++ {
 				for sid := 0; sid <= 1; sid++ {
@@ -631,7 +635,7 @@ func jobsFor(prop, tier string) []*Job {
 		for m := 0; m <= nmax(0, 4, 5); m++ {
 			add("rp", "ZZ_C19_rp", []string{"rp"}, m)
 		}
-		for k := 0; k <= 4; k++ {
+		for k := 0; k <= 6; k++ {
 			add("bytes", "ZZ_C19_bytes", []string{"bytes"}, k)
 		}
 		for t := 1; t <= 15; t++ {
